@@ -35,9 +35,8 @@ enum Res {
   SendOk(u64),
   SendFull(u64),
   SendClosed(u64),
-  /// a blocking `send` failed: its error type carries no payload, so the value was consumed
-  /// and dropped by the channel (exactly one drop expected)
-  SendGone(u64),
+  /// blocking send failed: SendError carries no value, the channel must drop it (once)
+  SendClosedDropped(u64),
   Val(u64),
   Empty,
   Disc,
@@ -63,7 +62,7 @@ macro_rules! impl_tx {
         let id = p.0;
         match <$t>::send(self, p) {
           Ok(()) => Res::SendOk(id),
-          Err(_) => Res::SendGone(id),
+          Err(_) => Res::SendClosedDropped(id),
         }
       }
       fn try_send(&mut self, p: P) -> Res {
@@ -236,6 +235,7 @@ struct OneRun {
   results: Vec<Vec<Res>>,
   steps: usize,
   events: usize,
+  parks: usize,
   choices: Vec<usize>,
   trace: Vec<sched::Rec>,
 }
@@ -326,7 +326,7 @@ fn run_once(sc: &Scenario, policy: Policy, record: bool) -> OneRun {
   }
   let rr = run(policy, 200_000, record, bodies);
   let results = results.lock().unwrap().clone();
-  OneRun { outcome: rr.outcome, results, steps: rr.steps, events: rr.trace.len(), choices: rr.choices, trace: rr.trace }
+  OneRun { outcome: rr.outcome, results, steps: rr.steps, events: rr.trace.len(), parks: rr.parks, choices: rr.choices, trace: rr.trace }
 }
 
 /// property monitors over one completed/aborted run; returns (clause, detail)
@@ -341,8 +341,8 @@ fn judge(sc: &Scenario, r: &OneRun) -> Option<(String, String)> {
   }
   let mut sent_ok = Vec::new();
   let mut handed_back = Vec::new();
+  let mut refused = Vec::new();
   let mut got = Vec::new();
-  let mut gone = Vec::new();
   let mut drained = false;
   for (ti, th) in sc.threads.iter().enumerate() {
     let mut last_from: std::collections::HashMap<u64, u64> = Default::default();
@@ -351,7 +351,7 @@ fn judge(sc: &Scenario, r: &OneRun) -> Option<(String, String)> {
       match res {
         Res::SendOk(id) => sent_ok.push(*id),
         Res::SendFull(id) | Res::SendClosed(id) => handed_back.push(*id),
-        Res::SendGone(id) => gone.push(*id),
+        Res::SendClosedDropped(id) => refused.push(*id),
         Res::Val(id) => {
           if seen_disc {
             return Some(("C04:value-after-disc".into(), format!("thread {ti} received {id} after Disconnected")));
@@ -399,13 +399,12 @@ fn judge(sc: &Scenario, r: &OneRun) -> Option<(String, String)> {
   }
   // drops: after all handles are gone every id was dropped exactly once unless it was
   // returned to user code (received or handed back; those we forget()) => channel drops = accepted - received
-  for id in &gone {
-    let d = DROPS[*id as usize % MAXID].load(Ordering::SeqCst);
-    if d != 1 {
-      return Some((if d == 0 { "C09:leak".into() } else { "C09:double-drop".into() }, format!("id {id} was consumed by a failed blocking send and dropped {d}x")));
+  for id in &refused {
+    if got.contains(id) {
+      return Some(("C01:phantom".into(), format!("id {id} was received although its send reported Closed")));
     }
   }
-  for id in sent_ok.iter().chain(handed_back.iter()) {
+  for id in sent_ok.iter().chain(handed_back.iter()).chain(refused.iter()) {
     let d = DROPS[*id as usize % MAXID].load(Ordering::SeqCst);
     let returned = got.contains(id) || handed_back.contains(id);
     if returned && d != 0 {
@@ -423,7 +422,7 @@ fn fmt_results(rs: &[Vec<Res>]) -> String {
     Res::SendOk(i) => format!("ok:{i}"),
     Res::SendFull(i) => format!("full:{i}"),
     Res::SendClosed(i) => format!("closed:{i}"),
-    Res::SendGone(i) => format!("gone:{i}"),
+    Res::SendClosedDropped(i) => format!("gone:{i}"),
     Res::Val(i) => format!("val:{i}"),
     Res::Empty => "empty".to_string(),
     Res::Disc => "disc".to_string(),
@@ -447,6 +446,7 @@ fn main() {
     let sc = parse(&line);
     let mut steps = 0usize;
     let mut events = 0usize;
+    let mut parks = 0usize;
     let mut fail: Option<(String, String, usize, u64, OneRun)> = None;
     let mut first: Option<OneRun> = None;
     for i in 0..sc.runs {
@@ -456,6 +456,7 @@ fn main() {
       let r = run_once(&sc, policy, sc.trace || i == 0);
       steps += r.steps;
       events += r.events;
+      parks += r.parks;
       if let Some((c, d)) = judge(&sc, &r) {
         fail = Some((c, d, i, seed, r));
         break;
@@ -481,7 +482,7 @@ fn main() {
         }
       }
       None => {
-        writeln!(out, "ok runs={} steps={} events_recorded={}", sc.runs, steps, events).unwrap();
+        writeln!(out, "ok runs={} steps={} events_recorded={} blocking_parks={}", sc.runs, steps, events, parks).unwrap();
         if sc.show_results {
           writeln!(out, "results {}", first.as_ref().map(|r| fmt_results(&r.results)).unwrap_or_default()).unwrap();
         }
